@@ -363,6 +363,7 @@ impl Check for C04 {
             enable_by_store: rng.bool(),
             mask_windows: variant == 8 || variant == 9,
             mid_stop: variant == 7 || variant == 9 || variant == 2,
+            isr_ei_first: variant == 3 && rng.bool(),
         };
         let o = HazardOpts { len: 6 + rng.usize(30), wild: false, run_into_io: false, with_ei: true, irq: Some(irq) };
         let (bytes, mid_stop) = gen::hazard_program_ex(rng, o);
